@@ -31,7 +31,6 @@ class SymBV:
     """numpy int64."""
 
     __slots__ = ("z",)
-    __array_priority__ = 1500
 
     def __init__(self, z):
         self.z = z
@@ -99,7 +98,6 @@ class SymBV:
 
 class SymFP:
     __slots__ = ("z",)
-    __array_priority__ = 1500
 
     def __init__(self, z):
         self.z = z
